@@ -693,5 +693,11 @@ def run(chk, prog):
     from . import dimrules
     nrd = dimrules.run(chk, prog, "RD")
     chk.floor("RD-requirements", nrd or 0, 30)
+    # ---- R10: "the axes hold the grid coordinates actually used" ------------------------------------------------------------------------------------
+    # the stored axes are the rulers of the grid; the dynamics use the same coordinates only if the RF kick vanishes at the ruler's zero bin and
+    # the drift where the energy coordinate is zero (decided under C03 R3; re-evaluated here: a kick centred on the middle of the grid is off on
+    # a shifted grid)
+    from .common import reeval
+    reeval(chk, prog, "C03", lambda i: i["rule"] == "R3" and not i["what"].startswith("(C01/") and ("vanishes" in i["what"] or "centre" in i["what"]), "R10", "R10-coordinates-actually-used", 2)
     chk.notes.append("C10: freshness typestate at all append sites x %d invariant cases, block agreement, dataset/accessor/axis tables of HDF5File, cadence. "
                      "NOT decided: numerical equality of stored moments, absolute unit factors." % len(cases))
